@@ -106,6 +106,53 @@ def _notations(p):
         return BAD("validated_string", {"perm": list(p)})
     if Perm.to_standard(p) != P or Perm.to_standard([v * 3 + 7 for v in p]) != P:
         return BAD("to_standard_identity", {"perm": list(p)})
+    # documented aliases are the same notation
+    one = [v + 1 for v in p]
+    if Perm.one(one) != P or Perm.proper(one) != P or Perm.scientific(one) != P or Perm.standardize(p) != P or Perm.from_iterable(p) != P:
+        return BAD("notation_alias", {"perm": list(p)})
+    if Perm.ind2perm(ref.rank(p)) != P or P.perm2ind() != ref.rank(p) or (n <= 12 and Perm.ind2perm(ref.rank_in_length(p), n) != P):
+        return BAD("rank_alias", {"perm": list(p)})
+    # cycle notation: reading the cycles back (each element is followed by its image) gives the permutation
+    txt = P.cycle_notation()
+    if P.cycles() != txt:
+        return BAD("cycles_alias", {"perm": list(p)})
+    if n == 0:
+        if txt != "( )":
+            return BAD("cycle_notation_empty", {"text": txt})
+    else:
+        import re
+
+        if not re.fullmatch(r"\( \d+( \d+)* \)( \( \d+( \d+)* \))*", txt):
+            return BAD("cycle_notation_format", {"perm": list(p), "text": txt})
+        back = [None] * n
+        seen = []
+        for grp in re.findall(r"\(([^)]*)\)", txt):
+            cyc = [int(x) for x in grp.split()]
+            seen.extend(cyc)
+            for i, a in enumerate(cyc):
+                if a < n:
+                    back[a] = cyc[(i + 1) % len(cyc)]
+        if sorted(seen) != list(range(n)) or tuple(back) != p:
+            return BAD("cycle_notation_roundtrip", {"perm": list(p), "text": txt})
+    # the ascii picture and the TikZ code are notations too: read the points back
+    if n <= 9:
+        from .c18 import parse_plot
+
+        for cs in (1, 2):
+            pic = P.ascii_plot(cs) if cs > 1 else P.ascii_plot()
+            try:
+                back_p, back_sh = parse_plot(pic, cs)
+            except ValueError as exc:
+                return BAD("perm_ascii_plot_unparsable", {"perm": list(p), "cell_size": cs, "text": pic, "why": str(exc)})
+            if back_p != p or back_sh:
+                return BAD("perm_ascii_plot_roundtrip", {"perm": list(p), "cell_size": cs, "text": pic})
+        import re
+
+        tik = P.to_tikz()
+        pts = [(int(a), int(b)) for a, b in re.findall(r"\\draw\[fill=black\] \((\d+),(\d+)\) circle", tik)]
+        grid = re.search(r"\\foreach \\x in \{1,\.\.\.,(\d+)\}", tik)
+        if pts != [(i + 1, v + 1) for i, v in enumerate(p)] or grid is None or int(grid.group(1)) != n:
+            return BAD("perm_tikz_roundtrip", {"perm": list(p), "text": tik})
     return None
 
 
